@@ -172,7 +172,7 @@ fn env_random(m: &HashMap<String, String>) {
 }
 
 fn main() {
-    std::panic::set_hook(Box::new(|_| {}));
+    if std::env::var("VERIF_SHOW_PANIC").is_err() { std::panic::set_hook(Box::new(|_| {})); }
     let (cmd, m) = args();
     match cmd.as_str() {
         "book-random" => { let l: usize = num(&m, "levels", 3); with_levels!(l, book_random, &m) }
